@@ -620,6 +620,7 @@ def _encode_one_float_array(values, digits, reference):
         return _fpzip_encoded('float64', values)
 
     nbytes = -int(-bytes_needed // 1)               # nbytes is rounded up
+    nbytes = max(nbytes, 1)     # a span far below the precision needs no bytes
 
     # Sometimes the test reveals that single precision fpzip is best. This is
     # so when the absolute precision requested is no finer than the spacing of
